@@ -1219,7 +1219,22 @@ func (c *Compiler) compileFunc(node *ast.Func) error {
 	if freeCount > 0 {
 		for i := uint16(0); i < freeCount; i++ {
 			resolution := code.symbols.Free(i)
-			c.emit(op.MakeCell, resolution.symbol.Index(), uint16(resolution.depth-1))
+			if resolution.depth <= 1 {
+				// The variable is a local of the function being compiled
+				// now, which is the frame that executes this instruction.
+				c.emit(op.MakeCell, resolution.symbol.Index(), 0)
+				continue
+			}
+			// The variable lives beyond the enclosing function, whose frame
+			// may be gone by the time the closure is created or called. The
+			// enclosing function captures the variable as well and hands its
+			// own cell on to the new closure.
+			outer, found := c.current.symbols.Resolve(resolution.symbol.Name())
+			if !found || outer.scope != Free {
+				return c.formatError(fmt.Sprintf("cannot capture variable %q",
+					resolution.symbol.Name()), node.Token().StartPosition)
+			}
+			c.emit(op.MakeCell, uint16(outer.freeIndex), op.FreeCell)
 		}
 		c.emit(op.LoadClosure, c.constant(fn), freeCount)
 	} else {
